@@ -110,6 +110,14 @@ def sweep(tier):
     for size in (1, 16385, 40000):
         for k in (0, 1, 16384):
             out.append({"payload": ["file", size], "stale": k})
+    # a faulty relay re-sends an earlier genuine record
+    for size, nfr in ((32768, 2), (40000, 3), (49152, 3), (16385, 2)):
+        for k in range(1, nfr):
+            for j in range(k):
+                out.append({"payload": ["file", size],
+                            "fault": ["s2r", "replace", k, j]})
+                out.append({"payload": ["file", size],
+                            "fault": ["s2r", "dup", k, j]})
     return out
 
 
@@ -134,6 +142,44 @@ def make_tree(tape, root):
             with open(p, "wb") as f:
                 f.write(tape.blob(size, i))
             os.chmod(p, tape.pick((0o644, 0o600, 0o755, 0o444), "mode"))
+
+
+class FrameReplayer:
+    """Transit path that re-sends an earlier, genuine record frame: in place
+    of frame k ('replace') or in front of it ('dup'). Has .feed/.fired/.cut
+    like Corruptor."""
+
+    def __init__(self, kind, k, j, skip):
+        self.kind, self.k, self.j = kind, k, j
+        self.skip = skip            # handshake bytes that precede the frames
+        self.buf = bytearray()
+        self.frames = []
+        self.fired = False
+        self.cut = False
+
+    def feed(self, data):
+        out = bytearray()
+        if self.skip:
+            n = min(self.skip, len(data))
+            out += data[:n]
+            self.skip -= n
+            data = data[n:]
+        self.buf += data
+        while len(self.buf) >= 4:
+            ln = int.from_bytes(self.buf[:4], "big")
+            if len(self.buf) < 4 + ln:
+                break
+            fr = bytes(self.buf[:4 + ln])
+            del self.buf[:4 + ln]
+            i = len(self.frames)
+            self.frames.append(fr)
+            if i == self.k and self.j < i and not self.fired:
+                self.fired = True
+                old = self.frames[self.j]
+                out += old if self.kind == "replace" else old + fr
+            else:
+                out += fr
+        return bytes(out)
 
 
 class FaultyFile:
@@ -189,6 +235,10 @@ def _run(seed, tape, opts, w):
                      else tape.choose(80000, "foff2")]
         elif kind != "text" and fk == 2:
             fault = ["s2r", "flip", HS_S2R + tape.choose(40000, "fo3")]
+        elif kind == "file" and fk == 5:
+            fault = ["s2r", tape.pick(("replace", "dup"), "rk"),
+                     1 + tape.choose(4, "rk_k"), 0]
+            fault[3] = tape.choose(fault[2], "rk_j")
         elif kind != "text" and fk == 3:
             fault = ["disk", tape.pick(("write", "rename"), "dk"),
                      1 + tape.choose(4, "dn")]
@@ -227,7 +277,10 @@ def _run(seed, tape, opts, w):
     want = snapshot(w.send_dir)
     # faults on the transit link
     cors = {}
-    if fault and fault[0] in ("s2r", "r2s"):
+    if fault and fault[0] in ("s2r", "r2s") and fault[1] in ("replace",
+                                                              "dup"):
+        cors[fault[0]] = FrameReplayer(fault[1], fault[2], fault[3], HS_S2R)
+    elif fault and fault[0] in ("s2r", "r2s"):
         cors[fault[0]] = Corruptor("truncate" if fault[1] == "cut" else "flip",
                                    fault[2], 1 << (fault[2] % 8))
 
